@@ -132,6 +132,12 @@ Definition all_at_least_one (L : limits) : Prop :=
   1 <= max_completed_connections L /\ 1 <= max_connections_per_user L /\ 1 <= max_incomplete_connections L /\
   1 <= max_names_per_connection L /\ 1 <= max_match_rules_per_connection L /\ 1 <= max_replies_per_connection L.
 
+(* the two limits whose value 0 makes no sense: the unique name must fit, and a bus that may not have a single
+   unregistered connection cannot be connected to *)
+Definition usable (L : limits) : Prop := 1 <= max_names_per_connection L /\ 1 <= max_incomplete_connections L.
+Lemma all_at_least_one_usable L : all_at_least_one L -> usable L.
+Proof. unfold all_at_least_one, usable. tauto. Qed.
+
 (* "at every moment of every history the number of ... stays within the configured limits" *)
 Definition limits_never_exceeded : Prop :=
   forall L, all_at_least_one L -> forall h, within_limits L (fst (lrun L linit h)).
@@ -159,12 +165,61 @@ Definition unauthenticated_limit_literal : Prop :=
     let s := fst (lrun L linit h) in
     refusal (snd (lstep L s (Connect uid))) = (max_incomplete_connections L <=? n_unauthenticated s).
 
+(* ---- reloading the configuration in mid-history ------------------------------------------------ *)
+Definition creachable (L0 : limits) (cs : limits * state) : Prop := exists h, cs = fst (crun (L0, linit) h).
+
+Fixpoint all_items_ok (h : list citem) : Prop :=
+  match h with
+  | [] => True
+  | Reload L' :: r => all_at_least_one L' /\ all_items_ok r
+  | Ev _ :: r => all_items_ok r
+  end.
+
+(* the literal property when the configuration may change: at every moment the counts are within
+   the limits configured at that moment *)
+Definition limits_never_exceeded_across_reloads : Prop :=
+  forall L0 h, all_at_least_one L0 -> all_items_ok h ->
+    let cs := fst (crun (L0, linit) h) in within_limits (fst cs) (snd cs).
+
+(* what can be asked instead: a count never grows past the limit in force - above it, it can only fall *)
+Record never_grows (L : limits) (s s' : state) : Prop := mkNG {
+  ng_completed : n_registered s' <= N.max (n_registered s) (max_completed_connections L);
+  ng_per_user : forall u, n_registered_of s' u <= N.max (n_registered_of s u) (max_connections_per_user L);
+  ng_incomplete : n_unregistered s' <= N.max (n_unregistered s) (max_incomplete_connections L);
+  ng_names : forall c, n_names s' c <= N.max (n_names s c) (max_names_per_connection L);
+  ng_rules : forall c, n_rules s' c <= N.max (n_rules s c) (max_match_rules_per_connection L);
+  ng_replies : forall c, n_awaiting s' c <= N.max (n_awaiting s c) (max_replies_per_connection L)
+}.
+
+(* the daemon never runs into one of its own assertions *)
+Definition aborts (os : list lout) : bool := existsb (fun o => match snd o with OAbort => true | _ => false end) os.
+Definition never_aborts_across_reloads : Prop :=
+  forall L0 h, all_at_least_one L0 -> all_items_ok h -> forallb (fun o => negb (aborts o)) (snd (crun (L0, linit) h)) = true.
+
+(* a connection attempt waits exactly when the configured number of unregistered connections is reached *)
+Definition accept_follows_configuration : Prop :=
+  forall L0 h uid, all_at_least_one L0 -> all_items_ok h ->
+    let cs := fst (crun (L0, linit) h) in
+    refusal (snd (lstep (fst cs) (snd cs) (Connect uid))) = (max_incomplete_connections (fst cs) <=? n_unregistered (snd cs)).
+
+(* a message longer than the configured maximum gets its sender disconnected *)
+Definition size_limit_follows_configuration : Prop :=
+  forall L0 h c hdr n, all_at_least_one L0 -> all_items_ok h ->
+    let cs := fst (crun (L0, linit) h) in
+    connected (snd cs) c = true -> declared_size hdr = Some n -> effective_max (fst cs) < n ->
+    connected (fst (lstep (fst cs) (snd cs) (Message c hdr))) c = false.
+
 (* "requests below the limit are unaffected": what is not refused happens as under any other
-   configuration that does not refuse it either (in particular a configuration without limits) *)
-Definition oversize (L : limits) (e : levent) : bool :=
-  match e with Message _ hdr => too_long L hdr | _ => false end.
+   configuration that does not refuse it either (in particular a configuration without limits).
+   [uncached]: a state without the two values it caches from the configuration (whether the
+   listening sockets are polled; each connection's maximum message size). *)
+Definition uncached (s : state) : state :=
+  mkState (s_conns s) (s_services s) (s_next s)
+          (map (fun d => mkCd (d_id d) (d_uid d) (d_nrules d) (d_auth d) 0) (s_cdata s))
+          (s_rules s) (s_pending s) (s_ncomplete s) (s_nincomplete s) (s_byuser s) true.
+
 Definition limits_act_only_by_refusing : Prop :=
   forall L L' s e,
     refusal (snd (lstep L s e)) = false -> refusal (snd (lstep L' s e)) = false ->
-    oversize L e = false -> oversize L' e = false ->
-    lstep L s e = lstep L' s e.
+    aborts (snd (lstep L s e)) = false -> aborts (snd (lstep L' s e)) = false ->
+    uncached (fst (lstep L s e)) = uncached (fst (lstep L' s e)) /\ snd (lstep L s e) = snd (lstep L' s e).
